@@ -1,9 +1,305 @@
-//! C01 — not implemented yet.
-use crate::util::{Args, Out};
-use serde_json::{Value, json};
+//! C01 — VM and WASM produce identical audio: differential oracle over generated
+//! programs (all features, nasty dsp inputs), the shipped sources and mutations of them.
 
-pub fn meta(_args: &Args) -> Value {
-    json!({"level": "exploration", "rule": "not implemented", "floor": {"quick": 1000000, "thorough": 1000000}})
+use super::progcase::{Case, gen_case, input_fn, norm, report};
+use super::{drive, replay_one};
+use crate::refsem;
+use crate::run::{Backend, BuildError, RunError, RunOut, run_program};
+use crate::util::{Args, Out, Rng, bits_eq, f64s_to_json};
+use serde_json::{Value, json};
+use std::path::PathBuf;
+
+pub struct Checked {
+    pub violations: Vec<(String, String)>,
+    pub nontrivial: bool,
+    pub samples_compared: usize,
+    pub state_words_compared: usize,
+    pub both_rejected: bool,
+    pub dyn_quarantine: Vec<&'static str>,
 }
-pub fn run(_args: &Args, _out: &mut Out) {}
-pub fn replay(_args: &Args, _out: &mut Out, _case: &Value) {}
+
+fn outcome(r: &Result<RunOut, RunError>) -> String {
+    match r {
+        Ok(_) => "ran".into(),
+        Err(RunError::Build(BuildError::Rejected(d))) => {
+            format!("rejected({})", d.first().map(|d| norm(&d.message)).unwrap_or_default())
+        }
+        Err(RunError::Build(BuildError::BackendRefused(s))) => format!("backend-refused({})", norm(s)),
+        Err(RunError::Build(BuildError::NoDsp)) => "no-dsp".into(),
+        Err(RunError::Build(BuildError::Panicked(ph, p))) => format!("{}@{ph}", p.sig()),
+        Err(RunError::DspPanic(_, p)) => format!("{}@dsp", p.sig()),
+    }
+}
+
+/// `dynq`: names of dynamic quarantines that are active (from KNOWN_FINDINGS).
+pub fn check(c: &Case, dynq: &[String]) -> Checked {
+    let mut res = Checked {
+        violations: vec![],
+        nontrivial: false,
+        samples_compared: 0,
+        state_words_compared: 0,
+        both_rejected: false,
+        dyn_quarantine: vec![],
+    };
+    let inp = input_fn(c.input_seed, c.finite_inputs);
+    // dynamic quarantine predicates are evaluated on the reference execution
+    if let Some(prog) = &c.prog
+        && let Ok((_, flags)) = refsem::run(prog, c.n, &inp)
+    {
+        for (flag, q) in [
+            ("nan_condition", "nan-as-condition"),
+            ("logic_on_negative_or_nan_operand", "logic-on-negative-or-nan"),
+            ("modulo_non_integer_operand", "modulo"),
+        ] {
+            if flags.contains(flag) && dynq.iter().any(|x| x == q) {
+                res.dyn_quarantine.push(q);
+            }
+        }
+        if !res.dyn_quarantine.is_empty() {
+            return res;
+        }
+    }
+    let path = c.path.as_ref().map(PathBuf::from);
+    let vm = run_program(Backend::Vm, &c.src, c.scheduler, c.n, &inp, true, path.clone());
+    let wasm = run_program(Backend::Wasm, &c.src, c.scheduler, c.n, &inp, true, path);
+    match (&vm, &wasm) {
+        (Ok(a), Ok(b)) => {
+            if a.channels != b.channels || a.in_channels != b.in_channels {
+                res.violations.push((
+                    "channel-count-differs".into(),
+                    format!("vm in/out {}/{} wasm {}/{}", a.in_channels, a.channels, b.in_channels, b.channels),
+                ));
+                return res;
+            }
+            res.samples_compared = a.out.len();
+            if let Some(i) = (0..a.out.len().min(b.out.len())).find(|&i| !bits_eq(a.out[i], b.out[i])) {
+                let ch = a.channels.max(1);
+                let lo = i.saturating_sub(2 * ch);
+                res.violations.push((
+                    "output-differs".into(),
+                    format!(
+                        "sample {} channel {}: vm = {:?} wasm = {:?}; window vm {} wasm {}",
+                        i / ch,
+                        i % ch,
+                        a.out[i],
+                        b.out[i],
+                        f64s_to_json(&a.out[lo..=i]),
+                        f64s_to_json(&b.out[lo..=i])
+                    ),
+                ));
+            } else if let Some(t) = (0..a.rcs.len()).find(|&t| (a.rcs[t] < 0) != (b.rcs[t] < 0)) {
+                res.violations.push((
+                    "dsp-return-code-differs".into(),
+                    format!("sample {t}: vm rc {} wasm rc {}", a.rcs[t], b.rcs[t]),
+                ));
+            } else if c.prog.is_some() {
+                // flat dsp state words after every sample (WASM grows lazily: zero-pad); only for
+                // generated programs, whose state holds numbers and ring indices only (array /
+                // closure handles in state are representation specific)
+                let total = a.total_state_size.unwrap_or(0);
+                'outer: for t in 0..a.states.len().min(b.states.len()) {
+                    let (sa, sb) = (&a.states[t], &b.states[t]);
+                    let n = sa.len().max(sb.len()).max(total);
+                    res.state_words_compared += n;
+                    for k in 0..n {
+                        let (x, y) = (sa.get(k).copied().unwrap_or(0), sb.get(k).copied().unwrap_or(0));
+                        let same = x == y || (f64::from_bits(x).is_nan() && f64::from_bits(y).is_nan());
+                        if !same {
+                            res.violations.push((
+                                "state-words-differ".into(),
+                                format!("after sample {t} word {k}: vm {x:#x} wasm {y:#x} (layout size {total}); outputs agree"),
+                            ));
+                            break 'outer;
+                        }
+                    }
+                }
+            }
+            let first = a.out.first().copied().unwrap_or(0.0);
+            res.nontrivial = a.out.iter().any(|x| !bits_eq(*x, first));
+        }
+        (Err(RunError::Build(BuildError::Rejected(_))), Err(RunError::Build(BuildError::Rejected(_)))) => {
+            res.both_rejected = true;
+        }
+        (Err(RunError::Build(BuildError::NoDsp)), Err(RunError::Build(BuildError::NoDsp))) => {
+            res.both_rejected = true;
+        }
+        _ => {
+            let (ov, ow) = (outcome(&vm), outcome(&wasm));
+            let both_panic_in_dsp = matches!((&vm, &wasm), (Err(RunError::DspPanic(..)), Err(RunError::DspPanic(..))));
+            if ov == ow || both_panic_in_dsp {
+                // both fail in the same way (same panic): that is C03's/C04's business, the back ends agree
+                res.both_rejected = true;
+            } else {
+                let detail = format!(
+                    "vm: {} | wasm: {}",
+                    vm.as_ref().err().map(|e| e.short()).unwrap_or("ran".into()),
+                    wasm.as_ref().err().map(|e| e.short()).unwrap_or("ran".into())
+                );
+                res.violations.push((format!("accept-differs: vm {ov} / wasm {ow}"), detail));
+            }
+        }
+    }
+    res
+}
+
+fn dynq(args: &Args) -> Vec<String> {
+    args.quarantine.iter().cloned().collect()
+}
+
+fn exec_with(args: &Args) -> impl Fn(&Case, usize, &mut Out) -> bool + '_ {
+    move |c, idx, out| {
+        let dq = dynq(args);
+        let r = check(c, &dq);
+        for q in &r.dyn_quarantine {
+            out.quarantined(idx, q);
+        }
+        if !r.dyn_quarantine.is_empty() {
+            return false;
+        }
+        for f in c.prog.iter().flat_map(|p| p.features.iter()) {
+            out.count(&format!("feature:{f}"), 1);
+        }
+        out.count("samples_compared", r.samples_compared as u64);
+        out.count("state_words_compared", r.state_words_compared as u64);
+        if r.both_rejected {
+            out.count("both_backends_refused_alike", 1);
+        }
+        let origin = c.origin.as_deref().unwrap_or("generated");
+        out.count(&format!("origin:{}", origin.split(':').next().unwrap_or("")), 1);
+        if let Some(f) = origin.split(':').nth(1) {
+            out.set("source_files", f);
+        }
+        report(out, idx, c, &r.violations, &|t| check(t, &dq).violations);
+        r.nontrivial
+    }
+}
+
+// ------------------------------------------------------------------ corpus
+
+pub fn corpus_files(repo: &str) -> Vec<PathBuf> {
+    let mut v = vec![];
+    for d in ["lib", "examples", "crates/lib/mimium-test/tests/mmm"] {
+        if let Ok(rd) = std::fs::read_dir(PathBuf::from(repo).join(d)) {
+            let mut fs: Vec<PathBuf> =
+                rd.filter_map(|e| e.ok()).map(|e| e.path()).filter(|p| p.extension().is_some_and(|x| x == "mmm")).collect();
+            fs.sort();
+            v.extend(fs);
+        }
+    }
+    v
+}
+
+/// token-level mutations that often still compile: swap an operator, perturb a number literal
+pub fn mutate_source(src: &str, rng: &mut Rng) -> String {
+    let bytes = src.as_bytes();
+    let mut sites: Vec<(usize, usize, String)> = vec![];
+    let mut i = 0;
+    while i < bytes.len() {
+        let c = bytes[i] as char;
+        if c.is_ascii_digit() && (i == 0 || !(bytes[i - 1] as char).is_ascii_alphanumeric() && bytes[i - 1] != b'_' && bytes[i - 1] != b'.') {
+            let mut j = i;
+            while j < bytes.len() && ((bytes[j] as char).is_ascii_digit() || bytes[j] == b'.') {
+                j += 1;
+            }
+            let lit = &src[i..j];
+            if lit.matches('.').count() <= 1 && !lit.ends_with('.') {
+                let repl = ["0", "1", "2", "0.5", "3", "7", "0.25", "100", "0.001"];
+                sites.push((i, j, rng.pick(&repl).to_string()));
+            }
+            i = j;
+            continue;
+        }
+        for (op, alts) in [("+", vec!["-", "*"]), ("-", vec!["+", "*"]), ("*", vec!["+", "/"]), ("/", vec!["*", "%"]), ("<", vec![">", "<="]), (">", vec!["<", ">="])] {
+            if src[i..].starts_with(op)
+                && i + 1 < bytes.len()
+                && bytes[i + 1] == b' '
+                && i > 0
+                && bytes[i - 1] == b' '
+            {
+                sites.push((i, i + op.len(), rng.pick(&alts).to_string()));
+            }
+        }
+        i += 1;
+    }
+    if sites.is_empty() {
+        return src.to_string();
+    }
+    let mut s = src.to_string();
+    let k = 1 + rng.below(2);
+    let mut chosen: Vec<(usize, usize, String)> = (0..k).map(|_| rng.pick(&sites).clone()).collect();
+    chosen.sort_by(|a, b| b.0.cmp(&a.0));
+    chosen.dedup_by(|a, b| a.0 == b.0);
+    for (a, b, r) in chosen {
+        s.replace_range(a..b, &r);
+    }
+    s
+}
+
+fn corpus_case(args: &Args, file: &PathBuf, rng: &mut Rng, mutate: bool) -> Option<Case> {
+    let src = std::fs::read_to_string(file).ok()?;
+    let name = file.file_name()?.to_string_lossy().to_string();
+    // device / file / GUI plugins are out of scope (no devices here)
+    for bad in ["Sampler", "sampler", "midi", "Slider", "Probe", "loadwav", "gen_sampler", "osc_", "#include", "include("] {
+        if src.contains(bad) {
+            return None;
+        }
+    }
+    if args.q(&format!("corpus:{name}")) {
+        return None;
+    }
+    let src = if mutate { mutate_source(&src, rng) } else { src };
+    Some(Case {
+        src,
+        n: *rng.pick(&[4usize, 16, 48]),
+        input_seed: rng.next(),
+        finite_inputs: rng.chance(1, 2),
+        prog: None,
+        expect: None,
+        scheduler: true,
+        path: Some(file.to_string_lossy().to_string()),
+        origin: Some(if mutate { format!("mutant:{name}") } else { format!("corpus:{name}") }),
+    })
+}
+
+pub fn meta(args: &Args) -> Value {
+    json!({
+        "level": "exploration",
+        "rule": "differential VM vs WASM through the CLI's code path (ExecContext / emit_wasm -> RuntimeData -> LocalBufferDriver::init, per sample set_input + run_dsp + get_output): (a) generated core-language programs with all features and dsp input streams including NaN, +-inf, -0.0, subnormals, 1e308; (b) every shipped source under lib/, examples/, tests/mmm that needs no device/file plugin, with the scheduler plugin; (c) operator/constant mutations of (b). Compared: accept/reject, channel counts, every output word bitwise (NaN==NaN), dsp return codes, flat dsp state words after every sample. Non-trivial = both back ends ran and the output stream has at least two distinct values; distinct = hash of program text + run parameters. Programs both back ends refuse alike are counted, not judged.",
+        "assumptions": ["sample rate 48000 via Driver::init on both sides", "plugins other than scheduler/audio-driver builtins out of scope", "cases listed under a dynamic quarantine (decided on the reference execution) take no part in the verdict and are counted"],
+        "floor": {"quick": 60, "thorough": 3000},
+        "case_timeout_s": 120,
+        "hang_is_violation": false,
+        "budget_quick": args.cases(500, 30000),
+    })
+}
+
+pub fn run(args: &Args, out: &mut Out) {
+    let files = corpus_files(&args.repo);
+    let ncorpus = files.len();
+    let nmut = if args.thorough() { ncorpus * 8 } else { ncorpus / 2 };
+    let ngen = args.cases(360, 30000);
+    let total = ncorpus + nmut + ngen;
+    let exec = exec_with(args);
+    drive(
+        args,
+        out,
+        total,
+        |idx, rng| {
+            if idx < ncorpus {
+                corpus_case(args, &files[idx], rng, false)
+            } else if idx < ncorpus + nmut {
+                let f = &files[rng.below(ncorpus.max(1))];
+                corpus_case(args, f, rng, true)
+            } else {
+                let finite = rng.chance(1, 2);
+                Some(gen_case(args, rng, finite))
+            }
+        },
+        exec,
+    );
+}
+
+pub fn replay(args: &Args, out: &mut Out, case: &Value) {
+    let exec = exec_with(args);
+    replay_one::<Case>(out, case, exec);
+}
